@@ -234,6 +234,31 @@ Theorem c07_diag_sensitive_masked_by_second_pattern :
 Proof. exact ad_masked_by_second_pattern. Qed.
 Print Assumptions c07_diag_sensitive_masked_by_second_pattern.
 
+(* ---- the code before the repair (fixed: CheckLDAPUserPassword tested the error TEXT for the words
+   "Invalid Credentials" instead of the result code).  A replica that answers binds with another
+   result code and a diagnostic mentioning those words was taken for a refusing directory: with a
+   healthy second replica that accepts, the right (cached) password is rejected and its hash evicted -
+   the verdict is not the directory's although a server answers; with no healthy replica the hash that
+   should fill the outage is evicted.  The repaired machine ([pstep], result code only) accepts in
+   both situations. *)
+Theorem c07_old_text_test_refuted :
+  let ops := removelast misleading_history in
+  In SUp (servers (prun 2 ops)) /\ dir_accepts (prun 2 ops) 1 7 = true /\
+  snd (pstep_text (prun_text 2 ops) (Login 1 7)) = Some false /\
+  aget skey_eqb (1%N, pw_type) (signed (primary (st (fst (pstep_text (prun_text 2 ops) (Login 1 7)))))) = None /\
+  snd (pstep (prun 2 ops) (Login 1 7)) = Some true /\
+  snd (pstep (prun 1 ops) (Login 1 7)) = Some true /\
+  snd (pstep_text (prun_text 1 ops) (Login 1 7)) = Some false /\
+  aget skey_eqb (1%N, pw_type) (signed (cache (st (fst (pstep_text (prun_text 1 ops) (Login 1 7)))))) = None.
+Proof. exact old_text_test_refuted. Qed.
+Print Assumptions c07_old_text_test_refuted.
+
+(* a replica answering with any result code other than invalidCredentials - whatever its diagnostic
+   text says - has not answered: the loop goes on to the next replica *)
+Theorem c07_other_code_no_verdict : forall c d, c <> 49%N -> verdict interp_code (RRefused c d) = None.
+Proof. exact other_code_no_verdict. Qed.
+Print Assumptions c07_other_code_no_verdict.
+
 (* ---- still false (known finding C07:evicted-password-accepted:primary-outage-at-eviction):
    "rejection of the cached password evicts the hash" cannot be carried out while the primary
    store is unreachable; the hash comes back with the next copy *)
